@@ -140,6 +140,20 @@ pub fn layouts(cname: &str, version: u16, thorough: bool) -> Vec<(Layout, bool)>
     for t in [1usize, 5] {
         out.push((Layout { trailing_free_sectors: t, ..base.clone() }, true));
     }
+    // two FAT sectors listed in the header DIFAT in the order [1, 0]: the FAT sector that lives in
+    // sector 0 is not the first one
+    {
+        let two = Layout { extra_fat_sectors: 1, ..base.clone() };
+        if let Ok((l2, _)) = synth::plan(&root, &two) {
+            let mut p: Vec<u32> = (0..l2 as u32).collect();
+            p.swap(0, 1);
+            out.push((Layout { sector_perm: p, ..two }, true));
+        }
+    }
+    // header fields other writers set differently (minor version, transaction signature)
+    for hv in [1u8, 2, 3] {
+        out.push((Layout { header_variant: hv, ..base.clone() }, true));
+    }
     // (ii)/(v) mini sector placement
     let mids: Vec<u32> = (0..lmini as u32).collect();
     if lmini >= 2 && lmini <= 6 {
@@ -647,6 +661,15 @@ pub fn explore_deviations(ctx: &Ctx, version: u16, thorough: bool) -> E2Stats {
         // chain through the last two logical sectors runs from the last sector of the file to sector 0
         let rot: Vec<u32> = (0..lsec as u32).map(|i| (i + 1) % lsec as u32).collect();
         let mut bases = vec![base.clone(), Layout { sector_perm: rev, trailing_free_sectors: 1, ..base.clone() }, Layout { sector_perm: rot, ..base.clone() }];
+        // two FAT sectors, the one in sector 0 listed second
+        {
+            let two = Layout { extra_fat_sectors: 1, ..base.clone() };
+            if let Ok((l2, _)) = synth::plan(&root, &two) {
+                let mut p: Vec<u32> = (0..l2 as u32).collect();
+                p.swap(0, 1);
+                bases.push(Layout { sector_perm: p, ..two });
+            }
+        }
         if version == 3 && (cname == "two-mini" || cname == "three-mixed") {
             bases.push(Layout { extra_fat_sectors: 110, ..base.clone() });
         }
